@@ -899,8 +899,8 @@ func TestVerif_C06C17_CaptureKinds(t *testing.T) {
 
 // TestVerif_C18_MapperOrder: the mapper-order scenarios as a bounded stand-in of the table Build makes of the Map()
 // options (overlapping token-type selections, untyped mappers registered between typed ones).
-func TestVerif_C18_MapperOrder(t *testing.T) {
-	res := &xResult{Check: "mapper order", Property: "C18", Exhaustive: true,
+func TestVerif_C18C15_MapperOrder(t *testing.T) {
+	res := &xResult{Check: "mapper order", Property: "C18 C15", Exhaustive: true,
 		Bound: "6 option lists (0-5 untyped Map() options interleaved with typed ones on Ident, String, Int and on Ident+String together), one input of 7 tokens parsed twice with each",
 		Rule: "(option list, parse) pairs; all are non-trivial"}
 	pr := &pProbe{}
